@@ -4,7 +4,7 @@
    regenerated table. *)
 From Coq Require Import ZArith List Bool Lia.
 From PTK Require Import Lib.Sx Lib.Py Gen.C03_AnsiSequences Gen.C17_Bindings Model.C03_Vt100Parser
-  Model.C17_Typeahead Model.C17_Emacs Proofs.C17_Core Proofs.C17_Accept.
+  Model.C17_Typeahead Model.C17_Emacs Proofs.C17_Core Proofs.C17_Accept Proofs.C17_Script.
 Import ListNotations.
 Open Scope Z_scope.
 
@@ -13,37 +13,24 @@ Definition w_plain : str := [102; 111; 111; 32; 98; 97; 114; 27; 98; 88; 13].
 Definition w_report : str := [27; 91; 53; 59; 49; 82].
 Definition w_split : str := [102; 111; 111; 32; 98; 97; 114; 27] ++ w_report ++ [98; 88; 13].
 Definition one_prompt (bytes : str) : list label := [LWrite bytes; LStart; LRead 1024; LExit].
-Definition results_of (ls : list label) : list result := results (e_run ls (e_init_sys false)).
+Definition results_of (ls : list label) : list result := results (e_run ls (e_init_sys false false)).
 
 Lemma witness_plain : results_of (one_prompt w_plain) = [RText [102; 111; 111; 32; 88; 98; 97; 114]].   (* 'foo Xbar' *)
 Proof. vm_compute. reflexivity. Qed.
-Lemma witness_split : results_of (one_prompt w_split) = [RText [102; 111; 111; 32; 98; 97; 114; 98; 88]]. (* 'foo barbX' *)
+(* with the report between ESC and b the result is the same (it was 'foo barbX'
+   before the report bypassed the key buffer: DESIGN F11 / C17-F1) *)
+Lemma witness_split : results_of (one_prompt w_split) = [RText [102; 111; 111; 32; 88; 98; 97; 114]].
 Proof. vm_compute. reflexivity. Qed.
 
-(* the only key presses decoded from w_split that are not in w_plain are the report *)
-Lemma witness_same_keys :
-  nc (decoded (e_run (one_prompt w_split) (e_init_sys false))) = nc (decoded (e_run (one_prompt w_plain) (e_init_sys false)))
-  /\ length (decoded (e_run (one_prompt w_split) (e_init_sys false))) = S (length (decoded (e_run (one_prompt w_plain) (e_init_sys false)))).
-Proof. vm_compute. split; reflexivity. Qed.
-
-Lemma cpr_not_transparent :
-  exists a b rep,
-    nc (decoded (e_run (one_prompt (a ++ rep ++ b)) (e_init_sys false))) = nc (decoded (e_run (one_prompt (a ++ b)) (e_init_sys false)))
-    /\ results_of (one_prompt (a ++ rep ++ b)) <> results_of (one_prompt (a ++ b)).
-Proof.
-  exists [102; 111; 111; 32; 98; 97; 114; 27], [98; 88; 13], w_report.
-  split; [vm_compute; reflexivity|]. vm_compute. intros H. discriminate H.
-Qed.
-
-(* c-q then a report: the report's bytes are inserted as text *)
-Definition w_quoted : str := [102; 111; 17] ++ w_report ++ [13].
-Lemma cpr_inserted :
-  results_of (one_prompt w_quoted) = [RText ([102; 111] ++ w_report)].
+(* c-q, a report, then 'a' 'r' CR: the key typed after c-q is inserted, the
+   report is not (it was 'fo\x1b[5;1Rar' before: C17-F2) *)
+Definition w_quoted : str := [102; 111; 17] ++ w_report ++ [97; 114; 13].
+Lemma witness_quoted : results_of (one_prompt w_quoted) = [RText [102; 111; 97; 114]].
 Proof. vm_compute. reflexivity. Qed.
 
 (* ---------------------------------------------------------------------- *)
-(* The hypotheses of C17_nothing_after_accept are satisfiable: a one-key-per-
-   binding keyboard (Enter accepts the typed text, any other key is inserted). *)
+(* The hypotheses of C17_script are satisfiable: a one-key-per-binding
+   keyboard (Enter accepts the typed text, any other key is inserted). *)
 
 Definition t_lookup (e : str) (ks : list kp) : option bool :=
   match ks with
@@ -53,30 +40,19 @@ Definition t_lookup (e : str) (ks : list kp) : option bool :=
 Definition t_waits (e : str) (ks : list kp) : bool := false.
 Definition t_eff (b : bool) (ks : list kp) (e : str) : str * option str :=
   if b then (e, Some e) else (e ++ concat (map snd ks), None).
+Definition t_cpr_lookup (e : str) : option bool := None.
 
-Lemma tiny_cpr_fires : cpr_fires t_lookup t_waits t_eff.
-Proof.
-  intros e c CK. split; [reflexivity|].
-  exists false. split.
-  - unfold t_lookup. unfold is_cpr in CK. destruct (fst c); [|discriminate].
-    apply Z.eqb_eq in CK. subst id. reflexivity.
-  - reflexivity.
-Qed.
+Lemma tiny_cpr_silent : cpr_silent t_eff t_cpr_lookup.
+Proof. intros e b H. discriminate H. Qed.
 
-Lemma tiny_exit_clean : exit_clean t_lookup t_lookup t_waits t_eff (fun _ => false).
+Lemma tiny_no_pushback : no_pushback t_lookup t_lookup t_waits t_eff (fun _ => false).
 Proof.
-  intros c it PH K.
+  intros c it PH P0 K.
   destruct K as [K|K]; [|discriminate K].
   destruct it as [k|]; unfold send; rewrite K; cbn [length app].
-  - set (c1 := if is_cpr k && negb (cpr_alone t_lookup t_waits (fun _ => false) c k) then set_bad c else c).
-    assert (P1 : cph c1 = CRun str) by (unfold c1; destruct (is_cpr k && negb (cpr_alone t_lookup t_waits (fun _ => false) c k)); exact PH).
-    assert (R1 : rlog c1 = rlog c) by (unfold c1; destruct (is_cpr k && negb (cpr_alone t_lookup t_waits (fun _ => false) c k)); reflexivity).
-    cbn [loop kbuf set_kbuf cph est]. rewrite P1. cbn [negb andb t_waits t_lookup].
-    unfold call, late; cbn [kbuf set_kbuf cph rlog est]. rewrite P1, R1.
-    destruct (match fst k with KKey i => i =? 15 | KChar _ => false end); cbn [t_eff snd fst].
-    + split; [reflexivity|]. eexists [_]. split; [reflexivity|]. constructor; [reflexivity|constructor].
-    + exact I.
-  - cbn [loop]. rewrite K, PH. exact I.
+  - cbn [loop kbuf set_kbuf cph est]. rewrite PH. cbn [negb andb t_waits t_lookup].
+    cbn [pb set_kbuf call]. exact P0.
+  - cbn [loop]. rewrite K. exact P0.
 Qed.
 
 (* ---------------------------------------------------------------------- *)
@@ -119,13 +95,20 @@ Proof.
   rewrite forallb_forall in H. specialize (H q Hq). now apply negb_true_iff in H.
 Qed.
 
-(* the report binding of the real table: a report alone in the key buffer is
-   matched at once, in every state of the truth tables, by a handler that does
-   not end the prompt *)
-Lemma emacs_cpr_fires : cpr_fires e_lookup e_waits e_eff.
+(* the report binding of the real table: in every state of the truth tables a
+   report is delivered to the handler of bindings/cpr.py, which neither ends
+   the prompt nor touches the edit state *)
+Lemma emacs_cpr_silent : cpr_silent e_eff e_cpr_lookup.
 Proof.
-  intros e c CK. destruct c as [[i|ch] d]; unfold is_cpr in CK; cbn [fst] in CK; [|discriminate].
-  apply Z.eqb_eq in CK. subst i.
-  destruct e as [t cu q u]. destruct t as [|t0 t]; destruct cu as [|cu]; destruct q;
-    (split; [vm_compute; reflexivity|]); eexists; (split; [vm_compute; reflexivity|]); intros e'; reflexivity.
+  intros e b H ks e'.
+  assert (X : snd b = 19).
+  { destruct e as [t cu q u x]. destruct t as [|t0 t]; destruct cu as [|cu]; destruct q; destruct x;
+      vm_compute in H; inversion H; reflexivity. }
+  unfold e_eff. rewrite X. reflexivity.
+Qed.
+
+Lemma emacs_cpr_bound : forall e, exists b, e_cpr_lookup e = Some b /\ e_is_cprh b = true.
+Proof.
+  intros e. destruct e as [t cu q u x]. destruct t as [|t0 t]; destruct cu as [|cu]; destruct q; destruct x;
+    eexists; (split; [vm_compute; reflexivity|reflexivity]).
 Qed.
